@@ -431,7 +431,7 @@ def build_backtest(bt, spec, spy_log=None, capital=None, strategy=None):
     if spec["comm"][0] != 0:
         kw["commissions"] = comm
     b = bt.Backtest(s, data, initial_capital=spec["capital"] if capital is None else capital,
-                    integer_positions=spec["integer"], additional_data=add or None, progress_bar=False, **kw)
+                    integer_positions=spec["integer"], additional_data=add or None, progress_bar=bool(spec.get("progress_bar", False)), **kw)
     return b, data, add
 
 
